@@ -43,6 +43,8 @@ def assigned_names(mp, node) -> T.Optional[T.Set[str]]:
             if not isinstance(n.elseblock, mp.EmptyNode):
                 walk(n.elseblock.block)
         elif t is mp.FunctionNode:
+            if n.func_name.value == 'subdir':
+                dyn = True      # the file runs in this variable table
             if n.func_name.value in ('set_variable', 'unset_variable'):
                 a = n.args.arguments
                 if a and type(a[0]) is mp.StringNode and not a[0].is_fstring:
@@ -92,12 +94,14 @@ def deep_eq(a: T.Any, b: T.Any) -> bool:
     return a == b
 
 
-def run_stepwise(im, code: str, ast) -> T.Tuple[str, T.List[Viol]]:
+def run_stepwise(im, code: str, ast, files: T.Optional[T.Dict[str, str]] = None) -> T.Tuple[str, T.List[Viol]]:
     """evaluate the program one top-level statement at a time (same semantics as evaluate_codeblock on the
     whole block); after every statement every name the statement does not assign must still hold a value
     structurally identical to the deep copy taken before it"""
     viol: T.List[Viol] = []
     im.reset()
+    if files is not None:
+        im.reset_tree(files)
     mp = im.mparser
     try:
         for i, st in enumerate(ast.lines):
@@ -237,6 +241,28 @@ def oracle_cross_type(im, rng, full: bool) -> T.List[Viol]:
                             key = 'int-op-bool' if (lt, rt) == ('int', 'bool') else f'cross-type:{code!r}'
                             out.append((key, f'`{lt} {op} {rt}` is accepted (no type error)',
                                         {'program': code, 'result': repr(vs.get('x'))}))
+    # the remaining operand positions: containers, unary operators, truth values, method/function arguments
+    for code in ["x = 1 in 'a'\n", "x = 1 not in 'a'\n", "x = 1 in {'a': 1}\n", "x = ['a'] in {'a': 1}\n", "x = {'a': 1}[0]\n",
+                 "x = [1]['0']\n", "x = 'a'['0']\n", "x = [1][[0]]\n", "x = 1 in 1\n", "x = true[0]\n", "x = range(3)['0']\n",
+                 "x = -'a'\n", "x = -true\n", "x = -[1]\n", "x = not 1\n", "x = not ''\n", "x = not []\n",
+                 "x = 1 and true\n", "x = '' or true\n", "x = true and 1\n", "x = false or 'a'\n", "x = [] and true\n",
+                 "if 1\n  x = 1\nendif\n", "if ''\n  x = 1\nendif\n", "x = 0 ? 1 : 2\n", "x = 'a' ? 1 : 2\n",
+                 "x = 'a'.contains(1)\n", "x = 'a'.startswith(true)\n", "x = 'a'.join([1])\n", "x = 'a'.join('b', 2)\n",
+                 "x = [1].get('0')\n", "x = {'a': 1}.has_key(1)\n", "x = {'a': 1}.get(1)\n", "x = 'a'.substring('1')\n",
+                 "x = 'a'.split(1)\n", "x = 'a'.replace('a', 1)\n", "x = true.to_string(1, 2)\n", "x = 1.to_string(fill: '3')\n",
+                 "x = 1.to_string(format: 1)\n", "x = 'x'.strip(1)\n", "x = '1'.version_compare(1)\n", "x = [1, 2].slice('0', 1)\n",
+                 "x = [1, 2].slice(0, 1, step: 'a')\n", "x = range('3')\n", "x = range(1, '3')\n", "set_variable(1, 2)\n",
+                 "x = get_variable(1)\n", "x = is_variable(1)\n", "unset_variable(1)\n", "assert('true')\n", "assert(1)\n",
+                 "assert(true, 1)\n", "subdir(1)\n", "x = subproject(1)\n", "x = {1: 2}\n", "x = {true: 2}\n"]:
+        ok, vs, ans = ev(im, code)
+        if ok:
+            out.append((f'cross-type:{code!r}', 'an operand / argument of the wrong type is accepted', {'program': code, 'answer': ans}))
+    for code in ["x = [1, 2][true]\n", "x = 'ab'[true]\n", "x = [1, 2].get(true)\n", "x = 'abc'.substring(true)\n",
+                 "x = range(3)[true]\n", "x = range(true)\n", "x = [1, 2, 3].slice(false, true)\n"]:
+        ok, vs, ans = ev(im, code)
+        if ok:
+            out.append(('bool-as-int-argument', 'a bool is accepted where an int index / argument is required',
+                        {'program': code, 'answer': ans}))
     # element comparison inside containers must not convert either
     for code, key in [("x = [1] == [true]\n", 'container-eq-bool-int'), ("x = 1 in [true]\n", 'container-eq-bool-int'),
                       ("x = {'a': 1} == {'a': true}\n", 'container-eq-bool-int'), ("x = [true].contains(1)\n", 'container-eq-bool-int'),
